@@ -98,7 +98,55 @@ class Ownership:
         self.funcs = [f for f in prog.functions.values() if prog.in_scope(f) and "FixedActiveSetNewtonMethod" not in f.qualname]
         self._busy: Set = set()
         self.unresolved_calls = 0
-        self._solve()
+        if not self._load_cache():
+            self._solve()
+            self._store_cache()
+
+    # ------------------------------------------------------------------ cache (pure optimisation)
+    def _cache_path(self) -> Optional[str]:
+        import hashlib, os
+        try:
+            h = hashlib.sha256()
+            h.update(self.prog.digest.encode())
+            here = os.path.dirname(os.path.abspath(__file__))
+            for fn in ("own.py", "symex.py", "model.py", "excflow.py"):
+                with open(os.path.join(here, fn), "rb") as fh:
+                    h.update(fh.read())
+            h.update(repr(sorted(self.entry.items())).encode())
+            d = os.path.join("/dev/shm", f"pgfstatic-cache-{os.getuid()}")
+            os.makedirs(d, exist_ok=True)
+            return os.path.join(d, "own-" + h.hexdigest()[:32] + ".pickle")
+        except Exception:
+            return None
+
+    def _load_cache(self) -> bool:
+        import os, pickle
+        if os.environ.get("PGF_NO_CACHE"):
+            return False
+        p = self._cache_path()
+        if not p or not os.path.exists(p):
+            return False
+        try:
+            with open(p, "rb") as fh:
+                d = pickle.load(fh)
+            self.P, self.Pprov, self.R, self.Relts, self.H, self.Hprov, self.rounds = d
+            self.from_cache = True
+            return True
+        except Exception:
+            return False
+
+    def _store_cache(self) -> None:
+        import os, pickle
+        p = self._cache_path()
+        if not p:
+            return
+        try:
+            tmp = p + f".{os.getpid()}.tmp"
+            with open(tmp, "wb") as fh:
+                pickle.dump((self.P, self.Pprov, self.R, self.Relts, self.H, self.Hprov, self.rounds), fh)
+            os.replace(tmp, p)
+        except Exception:
+            pass
 
     # ------------------------------------------------------------------ tokens
     @staticmethod
@@ -267,6 +315,9 @@ class Ownership:
             outk = next((k.value for k in e.keywords if k.arg == "out"), None)
             if outk is not None:
                 return V(outk)
+            if name in ("dot", "matmul") and len(e.args) == 2:
+                ks = {t for a in e.args for t in V(a) if t.startswith("k:")}
+                return ks
             if name == "array" and any(k.arg == "copy" and isinstance(k.value, ast.Constant) and k.value.value is False for k in e.keywords) and e.args:
                 return V(e.args[0])
             return {DENSE}
@@ -561,9 +612,9 @@ class Ownership:
         return []
 
     def sink_tokens(self, s: Sink) -> Set[Tok]:
-        from .symex import resolve
+        from .symex import resolve, _load
         ff = facts_for(s.fi)
-        toks = self.val(s.fi, ff, resolve(s.target, s.si.env))
+        toks = self.val(s.fi, ff, resolve(_load(s.target), s.si.env))
         if s.kind.startswith("augassign:"):
             op = s.kind.split(":")[1]
             # `+=` / `-=` on a scipy sparse matrix falls back to `a = a + b` (a rebind, not a write)
